@@ -1,10 +1,10 @@
 SPECIFICATION Spec
 CONSTANTS
-  Roots <- G2Q_Roots
-  Ops <- G_Ops
+  Roots <- N_Roots
+  Ops <- N_VecOps
   Scheds = {"sync"}
-  MaxDepth = 2
-  MaxRuns = 0
+  MaxDepth = 1
+  MaxRuns = 1
   MaxTasks = 12
   FftNeedsOneChunk = TRUE
   ChirpKeyByChannel = TRUE
@@ -13,7 +13,8 @@ CONSTANTS
   ReaderPerBlock = FALSE
   OverwriteTags <- None_
   StickyKwargs = FALSE
-  LazySetitemLost = FALSE
+  LazySetitemLost = TRUE
   SharedHandle = FALSE
-INVARIANT EmitLeaf
+VIEW View
+INVARIANT SameAsNumpy
 CHECK_DEADLOCK FALSE
